@@ -174,6 +174,13 @@ func (o *Object) HasField(name string) bool {
 }
 
 func (os Objects) ByName(name string) *Object {
+	// an exact match wins: type names that differ only in case (Mutation / MUTATION) are distinct
+	// GraphQL types, and the list may still be in map order when the root objects are looked up
+	for i, o := range os {
+		if o.Name == name {
+			return os[i]
+		}
+	}
 	for i, o := range os {
 		if strings.EqualFold(o.Name, name) {
 			return os[i]
